@@ -88,3 +88,59 @@ Example C01_example :
   let c := {| c_spe := 0; c_dup := 1; c_hgt := Fin 1; c_floss := 1; c_sloss := 1 |} in
   C01_costs c /\ leaves_ok S O /\ length (tags (reconcile_thl S c RALL O)) = 4%nat.
 Proof. cbv zeta. split; [|split]; [unfold C01_costs, nn; simpl; repeat split; (discriminate || lia)| |]; vm_compute; auto. Qed.
+
+(** ** the ANY policy for any enumeration order (Proofs/AllAnyProofs.v).
+    [C01_thl_any_optimum] / [C01_exh_any] are about the order in which the MODEL enumerates the
+    final candidates (species in pre-order); the code enumerates them in another order.
+    [reconcile_thl_order order S c rp O] is [reconcile_thl] with the root species taken in the order
+    [order]; [reconcile_exhaustive_order l c rp O] is [reconcile_exhaustive] fed the reconciliations
+    in the order [l].  For every permutation: exactly one reconciliation, valid and optimal, and a
+    member of the ALL result.  (For [reconcile_thl] the order inside the table aggregators is still
+    the model's: it only selects WHICH optimal sub-solution is kept; any kept one is optimal.) *)
+From SR Require Import Proofs.AllAnyProofs.
+
+Theorem C01_thl_any_order : forall S c O order, C01_costs c -> leaves_ok S O ->
+  Permutation.Permutation order (snodes S) ->
+  exists r, tags (reconcile_thl_order order S c RANY O) = [r] /\
+            (valid_rec S O r /\ forall r', valid_rec S O r' -> ele (cost c O r) (cost c O r')) /\
+            In r (tags (reconcile_thl S c RALL O)).
+Proof. intros S c O order [Hh [Hf Hc]] L P. exact (thl_any_order S c O order Hh Hf Hc L P). Qed.
+Print Assumptions C01_thl_any_order.
+
+Theorem C01_thl_order_is_model : forall S c rp O, reconcile_thl_order (snodes S) S c rp O = reconcile_thl S c rp O.
+Proof. exact reconcile_thl_order_snodes. Qed.
+Print Assumptions C01_thl_order_is_model.
+
+Theorem C01_exh_any_order : forall S c O l, leaves_ok S O -> Permutation.Permutation l (gen_all O) ->
+  exists r, tags (reconcile_exhaustive_order l c RANY O) = [r] /\
+            (valid_rec S O r /\ forall r', valid_rec S O r' -> ele (cost c O r) (cost c O r')) /\
+            In r (tags (reconcile_exhaustive c RALL O)).
+Proof. exact exh_any_order. Qed.
+Print Assumptions C01_exh_any_order.
+
+Theorem C01_exh_order_is_model : forall c rp O, reconcile_exhaustive_order (gen_all O) c rp O = reconcile_exhaustive c rp O.
+Proof. exact reconcile_exhaustive_order_gen_all. Qed.
+Print Assumptions C01_exh_order_is_model.
+
+(* each returned reconciliation is returned once (ALL) *)
+Theorem C01_returned_once : forall S c O,
+  NoDup (tags (reconcile_thl S c RALL O)) /\ NoDup (tags (reconcile_exhaustive c RALL O)).
+Proof. intros S c O. split; [exact (thl_all_nodup S c O)|exact (exh_all_nodup c O)]. Qed.
+Print Assumptions C01_returned_once.
+
+(* the returned cost is finite, for any cost vector (C04_finite_thl / C04_finite_exhaustive) *)
+
+(* non-vacuity of the order-independent statements: the reversed species order on the instance above *)
+Example C01_example_order :
+  let S := SNode SLeaf (SNode SLeaf (SNode SLeaf SLeaf)) in
+  let O := ONode (OLeaf [false] []) (ONode (OLeaf [true; true; true] [])
+                 (ONode (OLeaf [true; false] []) (OLeaf [true; true; false] []))) in
+  let c := {| c_spe := 0; c_dup := 1; c_hgt := Fin 1; c_floss := 1; c_sloss := 1 |} in
+  Permutation.Permutation (rev (snodes S)) (snodes S) /\ Permutation.Permutation (rev (gen_all O)) (gen_all O) /\
+  tags (reconcile_thl_order (rev (snodes S)) S c RANY O) <> tags (reconcile_thl S c RANY O) /\
+  length (tags (reconcile_exhaustive_order (rev (gen_all O)) c RANY O)) = 1%nat.
+Proof.
+  cbv zeta. split; [apply Permutation.Permutation_sym, Permutation.Permutation_rev|].
+  split; [apply Permutation.Permutation_sym, Permutation.Permutation_rev|].
+  split; [vm_compute; discriminate|vm_compute; reflexivity].
+Qed.
